@@ -236,10 +236,14 @@ fn weight(b: &[Vec<u32>]) -> (usize, u64) {
 }
 
 /// Minimise the choice sequence while the same violation signature persists:
-/// delete whole scheduler steps, zero single choices (0 is always the benign
-/// alternative), halve what is left.  Blocks keep later choices aligned.
+/// delete runs of scheduler steps (halving chunk sizes down to single steps), zero single
+/// choices (0 is always the benign alternative), halve what is left.  Blocks keep later
+/// choices aligned.  The budget is a number of re-executions derived from the run's
+/// size only, so minimisation is as repeatable as the run itself.
 fn shrink(prof: &Profile, known: &Known, start: RunOut, sig: &str) -> (RunOut, u32) {
-    let mut budget = 12000u32;
+    let size = start.choices.len().max(1) as u64;
+    let total: u32 = (60_000_000u64 / size).clamp(400, 12_000) as u32;
+    let mut budget = total;
     let mut cur = start;
     match attempt(prof, known, &blocks(&cur), sig, &mut budget) {
         Some(o) => cur = o,
@@ -248,20 +252,32 @@ fn shrink(prof: &Profile, known: &Known, start: RunOut, sig: &str) -> (RunOut, u
     let mut improved = true;
     while improved && budget > 0 {
         improved = false;
-        // (1) delete whole scheduler steps, last first
+        // (1) delete chunks of scheduler steps, large chunks first, from the end
         let cfg_blocks = cur.cfg_end as usize;
-        let mut i = blocks(&cur).len();
-        while i > cfg_blocks && budget > 0 {
-            i -= 1;
-            let mut cand = blocks(&cur);
-            if i >= cand.len() {
-                continue;
+        let n_steps = blocks(&cur).len().saturating_sub(cfg_blocks);
+        let mut chunk = (n_steps / 2).max(1);
+        loop {
+            let mut hi = blocks(&cur).len();
+            while hi > cfg_blocks && budget > 0 {
+                let lo = hi.saturating_sub(chunk).max(cfg_blocks);
+                let mut cand = blocks(&cur);
+                if hi > cand.len() {
+                    hi = cand.len();
+                    continue;
+                }
+                cand.drain(lo..hi);
+                if let Some(o) = attempt(prof, known, &cand, sig, &mut budget) {
+                    cur = o;
+                    improved = true;
+                    hi = lo.min(blocks(&cur).len());
+                } else {
+                    hi = lo;
+                }
             }
-            cand.remove(i);
-            if let Some(o) = attempt(prof, known, &cand, sig, &mut budget) {
-                cur = o;
-                improved = true;
+            if chunk == 1 || budget == 0 {
+                break;
             }
+            chunk /= 2;
         }
         // (2) zero single choices, (3) halve
         for pass in 0..2 {
@@ -291,7 +307,7 @@ fn shrink(prof: &Profile, known: &Known, start: RunOut, sig: &str) -> (RunOut, u
             }
         }
     }
-    (cur, 12000 - budget)
+    (cur, total - budget)
 }
 
 // ---------------------------------------------------------------- check
